@@ -90,6 +90,35 @@ theorem bufferedEntry_refines {cap : Nat} (hcap : 0 < cap) :
 
 /-! ## The external sort -/
 
+/-! The block sort of the code is `std::sort`, whose order among equal records is unspecified; the
+model fixes one sorted permutation per block (`blockSort`).  The next theorem states the merge
+phase for *arbitrary* sorted initial runs, so the results below hold for every block sorter that
+returns a sorted permutation of its block. -/
+
+/-- **mergePhase**: from any sorted runs, any sequence of passes followed by the final merge
+yields a sorted list; without a combiner it is a permutation of the runs' records; any quantity
+the combiner adds up is preserved. -/
+theorem mergePhase {lt : α → α → Bool} (h : StrictWeak lt) {comb} (hc : CombKeeps lt comb) (pick)
+    (runs : List (List α)) (hr : ∀ r ∈ runs, r.Pairwise (fun a b => lt b a = false)) (plan) :
+    ∃ runs', passes lt comb pick plan runs = some runs' ∧
+      (finalMerge lt comb pick runs').Pairwise (fun a b => lt b a = false) ∧
+      (comb = neverCombine → finalMerge lt comb pick runs' ~ runs.flatten) ∧
+      (∀ w : α → Nat, (∀ a b c, comb a b = some c → w c = w a + w b) →
+        ((finalMerge lt comb pick runs').map w).sum = (runs.flatten.map w).sum) := by
+  obtain ⟨runs', hp⟩ := passes_isSome lt comb pick plan runs
+  refine ⟨runs', hp, ?_, ?_, ?_⟩
+  · apply finalMerge_sorted h hc pick
+    exact passes_induct (AllSorted lt) (fun sizes r r' hP hp => pass_sorted h hc pick sizes hP hp) plan _ _ hr hp
+  · intro hn
+    subst hn
+    refine (finalMerge_perm h pick runs').trans ?_
+    exact passes_induct (fun r => r.flatten ~ runs.flatten)
+      (fun sizes r r' hP hp => (pass_perm h pick sizes hp).trans hP) plan _ _ (Perm.refl _) hp
+  · intro w hw
+    rw [finalMerge_sum h pick w hw]
+    exact passes_induct (fun r => (r.flatten.map w).sum = (runs.flatten.map w).sum)
+      (fun sizes r r' hP hp => (pass_sum h pick w hw sizes hp).trans hP) plan _ _ rfl hp
+
 /-- **extSort_sorted**: the output is in non-decreasing order, for every combiner that keeps a
 record equivalent to the one it combines into (`CombineCounts`, `NeverCombine`). -/
 theorem extSort_sorted {lt : α → α → Bool} (h : StrictWeak lt) {comb} (hc : CombKeeps lt comb) (pick)
